@@ -276,6 +276,7 @@ class Check:
         report = json.load(open(rep))
         info['functions_encoded'] = report['defined']; info['external_decls'] = [d for d in report['declared'] if not d.startswith('llvm.')]
         info['untranslated'] = report['errors']
+        info['symbolic_length_mem_calls'] = report.get('symbolic_length_mem_calls', [])
         info['ir_lines'] = sum(1 for _ in open(ll)); info['c_lines'] = sum(1 for _ in open(c))
         extra = [self.src_path(e) for e in unit.extra_c]
         gb = os.path.join(wd, 'unit.gb')
@@ -526,7 +527,7 @@ def main(argv):
     seed = int(os.environ.get('VERIF_SEED', '0') or 0)
     checkdir = os.path.join(VERIF, 'checks', pid)
     t0 = time.time()
-    evpath = os.path.join(VERIF, 'evidence', pid + '.json')
+    evpath = os.path.join(os.environ.get('VERIF_EVIDENCE_DIR') or os.path.join(VERIF, 'evidence'), pid + '.json')   # VERIF_EVIDENCE_DIR: runs against seeded changes keep their evidence apart
     try:
         spec = load_spec(checkdir)
         chk = Check(pid, checkdir, spec, tier, seed, only=a.harness, jobs=a.jobs)
